@@ -28,7 +28,7 @@ RULE = ('references = {relative, $col, $row, both} on each corner x {bare, unquo
         'values and under overrides.  Non-trivial: the reference is not the single cell A1 of the first sheet and its '
         'a data-only sheet with a ragged bottom edge referenced by whole-column areas of 1-4 columns; expected value differs from what the same text would give on another sheet / shifted by one row or column '
         '(guaranteed by unique cell values); distinct by (book, formula text, valuation)')
-ASSUMPTIONS = ['unique numbers per cell make a value identify its coordinate', 'reversed corners (C3:A1) are not generated',
+ASSUMPTIONS = ['unique numbers per cell make a value identify its coordinate', 'a third of the areas is written with its corners in another order (C3:A1, C1:A3, A3:C1): the same area',
                'titles containing \' or ! have no spelling in the grammar and are not referenced',
                'unknown-title references differing only by case from an existing title are not generated']
 FLOORS = {'quick': {'evaluations': 5000, 'nontrivial': 2500, 'counters': {'trace_checked': 400, 'unknown_title_refs': 40}},
@@ -84,10 +84,24 @@ def spell(rng, ref, titles, own_si, stats=None):
         body = f'{d[0]}{letters(ref.c1)}{d[1]}{ref.r1}'
         dk = (d[0] + d[1]) or 'rel'
     elif ref.whole:
-        body = f'{d[0]}{letters(ref.c1)}:{d[2]}{letters(ref.c2)}'
+        # the two corners in either order (C:A is A:C): files written by other tools keep them as they were typed
+        ca, cb = (ref.c1, ref.c2) if rng.random() < 0.8 else (ref.c2, ref.c1)
+        body = f'{d[0]}{letters(ca)}:{d[2]}{letters(cb)}'
         dk = (d[0] + '|' + d[2])
+        if stats is not None and ca > cb:
+            stats.count('areas_with_corners_out_of_order')
     else:
-        body = f'{d[0]}{letters(ref.c1)}{d[1]}{ref.r1}:{d[2]}{letters(ref.c2)}{d[3]}{ref.r2}'
+        (ca, cb), (ra, rb) = (ref.c1, ref.c2), (ref.r1, ref.r2)
+        k = rng.random()
+        if k < 0.1:
+            ca, cb, ra, rb = cb, ca, rb, ra          # bottom right : top left
+        elif k < 0.2:
+            ca, cb = cb, ca                          # top right : bottom left
+        elif k < 0.3:
+            ra, rb = rb, ra                          # bottom left : top right
+        if stats is not None and (ca > cb or ra > rb):
+            stats.count('areas_with_corners_out_of_order')
+        body = f'{d[0]}{letters(ca)}{d[1]}{ra}:{d[2]}{letters(cb)}{d[3]}{rb}'
         dk = ''.join(x or '-' for x in d)
     if stats is not None:
         stats.seen('prefix_kinds', pk)
